@@ -154,7 +154,65 @@ def project(log):
     return [init] + out, src
 
 
+def project_keyid(log):
+    """Event lines for `driver keyid` (Model.KeyId): calls of ABT_key_create and every atomic access to the id counter."""
+    out, src = [], []
+    start = 2
+    tid_actor = {}
+    for ev in log.events:
+        t = ev["t"]
+        if t == "S":
+            x = ev["txt"]
+            if len(x) < 2 or x[0] != "kc":
+                continue
+            if x[1] == "idend":
+                start = int(x[2])
+            elif x[1] == "begin":
+                a = int(x[2][1:])
+                tid_actor[ev["tid"]] = a
+                out.append("call %d" % a); src.append(ev["ln"])
+            elif x[1] == "end":
+                a = int(x[2][1:])
+                d = kv(x[3:])
+                tid_actor.pop(ev["tid"], None)
+                out.append("ret %d %s" % (a, d["id"])); src.append(ev["ln"])
+        elif t == "A" and ev["loc"] == "GKEYID":
+            a = tid_actor.get(ev["tid"])
+            if ev["op"] == "fadd" and a is not None:
+                out.append("fetchAdd %d %d" % (a, ev["cur"]))
+            else:
+                # any other access to the counter (separate load / store / access outside ABT_key_create)
+                out.append("%s-of-counter %s value=%d arg=%d" % (ev["op"], a, ev["cur"], ev["a"]))
+            src.append(ev["ln"])
+    return ["init %d" % start] + out, src
+
+
+def _drive(model, lines):
+    import time
+    for attempt in range(60):
+        try:
+            return t3.run_driver(model, lines)
+        except FileNotFoundError:       # the shared `driver` binary is being relinked by somebody
+            time.sleep(2)
+    return t3.run_driver(model, lines)
+
+
 def validate(lg, params):
+    rejects, trans, n = [], set(), 0
+    klines, ksrc = project_keyid(lg)
+    rej, tr, drc = _drive("keyid", klines)
+    n += len(klines)
+    trans.update("keyid:" + x for x in tr)
+    if rej or drc != 0:
+        idx = int(rej.split()[1]) + 1 if rej else 0
+        rejects.append({"model": "Model.KeyId", "object": "g_key_id", "reject": rej or "driver rc=%d" % drc,
+                        "log_line": ksrc[idx - 1] if 0 < idx <= len(ksrc) else None,
+                        "projected_context": klines[max(0, idx - 10): idx + 2]})
+    r2, t2, n2 = validate_table(lg, params)
+    return rejects + r2, trans | t2, n + n2
+
+
+def validate_table(lg, params):
     lines, src = project(lg)
     import time
     for attempt in range(60):
@@ -168,7 +226,7 @@ def validate(lg, params):
     rejects = []
     if rej or drc != 0:
         idx = int(rej.split()[1]) + 1 if rej else 0
-        rejects.append({"model": "Model.KTableConc", "reject": rej or "driver rc=%d" % drc,
+        rejects.append({"model": "Model.KTableConc", "object": "KT", "reject": rej or "driver rc=%d" % drc,
                         "log_line": src[idx - 1] if 0 < idx <= len(src) else None,
                         "projected_context": lines[max(0, idx - 14): idx + 2]})
     return rejects, set(trans), len(lines)
